@@ -5,7 +5,7 @@ from sqlparse import lexer, tokens as T
 
 from gen import chars, soup
 from oracles import refscan
-from vlib.core import Leg, Result, exc_failure
+from vlib.core import Leg, Result, exc_failure, h64 as vlib_h
 
 ID = 'C01'
 RULE = ('cases: str inputs from G1 character soup (full Unicode incl. NUL, controls, lone surrogates, every opener with or '
@@ -62,7 +62,10 @@ def check(case):
     res.nontrivial = len(ref) >= 3 and len(types) >= 2 and (has_err or unterminated or lookbehind or _odd(text))
     res.labels = ['error-token'] * has_err + ['unterminated-quote'] * unterminated + ['odd-char'] * _odd(text) + \
         ['lookbehind-pair'] * lookbehind + ['len>200'] * (len(text) > 200) + ['empty'] * (text == '')
-    res.sample = {'text': text[:300], 'tokens': len(ref)}
+    res.labels += ['max-token>=4096'] * any(len(v) >= 4096 for _, v in ref)
+    res.sample = {'text': text[:300] if len(text) <= 300 else text[:120] + '...[%d chars]' % len(text), 'tokens': len(ref)}
+    if len(text) > 2000:
+        res.key = [len(text), text[:40], text[-40:], vlib_h(text)]
     return res
 
 
@@ -74,4 +77,44 @@ def _strategy(tier):
     ).map(lambda t: {'text': t})
 
 
-LEGS = [Leg('text', check=check, strategy=_strategy, examples={'quick': 40000, 'thorough': 1000000})]
+LONG_LENGTHS = {'quick': [100, 255, 256, 257, 1000, 1023, 1024, 1025, 2047, 2048, 2049, 4095, 4096, 4097, 5000, 8191, 8192, 8193, 10000, 16385, 20000],
+                'thorough': [100, 255, 256, 257, 1023, 1024, 1025, 2047, 2048, 2049, 4095, 4096, 4097, 8191, 8192, 8193, 16383, 16384, 16385, 32769, 65535, 65536, 65537, 131073]}
+
+
+@st.composite
+def long_token_cases(draw, tier):
+    """one very long token (every token kind that has a repeatable body) of a boundary length, between short neighbours:
+    "any length" is part of the property's quantifier, and per-token skip arithmetic only shows at large widths"""
+    n = draw(st.sampled_from(LONG_LENGTHS[tier])) + draw(st.sampled_from([0, 0, 0, -1, 1, 3]))
+    unit = draw(st.sampled_from(['x', 'ab', 'é', "''", ' ', 'a b', '1', '\U0001f600', 'x;', '*', '-', '%']))
+    body = (unit * (n // len(unit) + 1))[:n]
+    kind = draw(st.sampled_from(['sq', 'dq', 'bt', 'dollar', 'ml', 'sl', 'word', 'ws', 'digits', 'ops', 'error-run']))
+    if kind == 'sq':
+        tok = "'" + body.replace("'", 'q') + "'"
+    elif kind == 'dq':
+        tok = '"' + body.replace('"', 'q') + '"'
+    elif kind == 'bt':
+        tok = '`' + body.replace('`', 'q') + '`'
+    elif kind == 'dollar':
+        tok = '$t$' + body.replace('$', 'S') + '$t$'
+    elif kind == 'ml':
+        tok = '/*' + body.replace('*/', '**') + ' */'
+    elif kind == 'sl':
+        tok = '--' + body.replace('\n', ' ') + '\n'
+    elif kind == 'word':
+        tok = ('w' * n)
+    elif kind == 'ws':
+        tok = draw(st.sampled_from([' ', '\t', '\n'])) * n
+    elif kind == 'digits':
+        tok = '7' * n
+    elif kind == 'ops':
+        tok = draw(st.sampled_from(['+', '<', '|'])) * n
+    else:
+        tok = draw(st.sampled_from(['\x00', '\\', '{', '\x01'])) * min(n, 3000)
+    pre = draw(st.sampled_from(['', 'select ', 'a ', '(', '; ']))
+    post = draw(st.sampled_from(['', ' from t', ';', ' x', ') y']))
+    return {'text': pre + tok + post}
+
+
+LEGS = [Leg('long-tokens', check=check, strategy=lambda tier: long_token_cases(tier), examples={'quick': 700, 'thorough': 6000}),
+        Leg('text', check=check, strategy=_strategy, examples={'quick': 40000, 'thorough': 1000000})]
